@@ -5,7 +5,7 @@ from .common import declare
 RULES = ['AUTOCOMMIT-OFF', 'COMMIT-ONLY-VIA-REF', 'TUPLE-LAYOUT', 'OFFSET-ALGEBRA', 'SEED-FROM-COMMITTED', 'READ-RANGE',
          'STOP-CHECK', 'SINGLE-FLIGHT', 'PROPAGATE']
 FLOORS = {'AUTOCOMMIT-OFF': 3, 'COMMIT-ONLY-VIA-REF': 3, 'TUPLE-LAYOUT': 4, 'OFFSET-ALGEBRA': 5, 'SEED-FROM-COMMITTED': 2,
-          'READ-RANGE': 5, 'STOP-CHECK': 1, 'SINGLE-FLIGHT': 1, 'PROPAGATE': 1}
+          'READ-RANGE': 5, 'STOP-CHECK': 1, 'PROPAGATE': 1}
 
 META = {
     'level': "Static analysis of FromKafkaBatched and get_message_batch, which have zero executed coverage in the suite: auto-commit "
